@@ -121,12 +121,15 @@ def run(ctx):
         ctx.check(ok, 'C10-saturate', 'c4_shift * kSecsPer400Years only for c4_shift <= max/kSecsPer400Years', x,
                   'the 400-year shift count is multiplied by the cycle length without having been bounded so that the product '
                   'fits 64 bits (bound %s)' % bound, construct='saturate:timelocal:mul', detail='c4_shift <= %s' % bound)
-    adds = [x for x in walk(f) if x.get('kind') in ('CXXOperatorCallExpr',) and callee(x) and callee(x)[0] == 'fn' and
-            callee(x)[1].get('name') == 'operator+=']
-    for x in adds:
-        fs = F.facts_at_ast(x) or frozenset()
-        tk = keys.key(call_args(x)[0])
-        ok = any(op == '<=' and a == tk and re.search(r'max\(\) - ', F.resolve_key(b)) for (op, a, b) in fs)
+    # (the additions may sit in a file-local helper TimeLocal was split into: its parameters are keyed as what every
+    #  caller passes for them)
+    adds = [(x, ctx.facts(ff)) for (uu, ff) in ctx.scope(f) for x in walk(ff)
+            if x.get('kind') in ('CXXOperatorCallExpr',) and callee(x) and callee(x)[0] == 'fn' and
+            callee(x)[1].get('name') == 'operator+=' and 'time_point' in (dtype(call_args(x)[0]) or qtype(call_args(x)[0]) or '')]
+    for (x, Fx) in adds:
+        fs = Fx.facts_at_ast(x) or frozenset()
+        tk = Fx.keys.key(call_args(x)[0])
+        ok = any(op == '<=' and a == tk and re.search(r'max\(\) - ', Fx.resolve_key(b)) for (op, a, b) in fs)
         ctx.check(ok, 'C10-saturate', 'instant += 400-year offset only when instant <= max - offset', x,
                   'the shifted-back instant is moved forward again without the test against time_point::max() - offset: the '
                   'addition overflows at the end of the range instead of saturating', construct='saturate:timelocal:add')
